@@ -34,6 +34,7 @@ Matches(x, o) ==
   /\ Closes(x) = o.closes
   /\ x.tOpen = o.tOpen /\ x.tClose = o.tClose /\ x.tDrop = o.tDrop /\ x.tPs = o.tPs /\ x.tPt = o.tPt
   /\ x.pend = o.pend
+  /\ x.dataAfterClose = o.dac /\ x.lateWrite = o.late      \* judged on the order of frames in the transport's byte stream
 
 \* E.cf = payload octets of the close frame written during this event (<<>> if none / empty payload)
 CfCode == IF Len(E.cf) >= 2 THEN E.cf[1] * 256 + E.cf[2] ELSE 0
@@ -55,6 +56,9 @@ TOpened == IsEvent("open") /\ TStep(Opened(cfg, c, now))
 TLClose == /\ IsEvent("lclose") /\ TStep(LocalClose(cfg, c, now))
            /\ c'.nclose > c.nclose => CfCode = E.code          \* the application's code (0 = none) goes out unchanged
 TLSend  == IsEvent("lsend") /\ LET r == LocalSend(cfg, c, E.api) IN TStep(r.c) /\ E.exc = r.exc
+\* two synchronous (queued) sends directly followed by sendClose() in one reactor turn, then the send queue is pumped
+TLBurst == /\ IsEvent("lburst")
+           /\ TStep(LocalClose(cfg, LocalSend(cfg, LocalSend(cfg, c, "msg").c, "msg").c, now))
 TPClose == /\ IsEvent("pclose") /\ TStep(PeerCloseOk(cfg, c, now, E.rc))
            /\ c'.nclose > c.nclose => CfCode = (IF cfg.echo THEN E.rc ELSE 1000)   \* reply: normal closure, or the peer's code when echoing
 TPData  == IsEvent("pdata") /\ TStep(PeerData(cfg, c, now))
@@ -69,7 +73,7 @@ TAdv    == /\ IsEvent("adv")
                  LET nx == FireAll(cfg, c, now + 1, order) IN c' = nx /\ Matches(nx, E.obs) /\ CloseFrameLegal
            /\ UNCHANGED cfg
 
-TNext == TMade \/ TOpened \/ TLClose \/ TLSend \/ TPClose \/ TPData \/ TPPing \/ TPPong \/ TPViol \/ TLost \/ TAdv
+TNext == TMade \/ TOpened \/ TLClose \/ TLBurst \/ TLSend \/ TPClose \/ TPData \/ TPPing \/ TPPong \/ TPViol \/ TLost \/ TAdv
 TraceSpec == TInit /\ [][TNext]_tvars
 
 Progress == TLCSet(tid, IF TLCGet(tid) < l THEN l ELSE TLCGet(tid))
